@@ -317,7 +317,7 @@ def run(ctx):
         ctx.candidate(dict(kind="race", stage="enc"), "data race between concurrent renderings of raw bodies:\n" + p.stdout[j:j + 3000],
                       dict(stage="enc", kind="race", report=p.stdout[j:j + 3000]))
     elif p.returncode != 0:
-        raise vf.Machinery("concurrent encoder harness failed rc=%d\n%s" % (p.returncode, p.stdout[-2000:]))
+        ctx.harness_died(p, "concurrent encoder harness")
     recs_enc += st_enc.run("conc", None, dict(VERIF_RANDOM=n_rand, VERIF_CONC=1), repro_body, "body encoder (concurrent renderings)")
 
     _evidence(ctx, stages, recs_ops, recs_resp, recs_req, recs_enc)
